@@ -6,9 +6,13 @@ open Cascette.Props.C09
 #print axioms salsa20_decrypt_encrypt
 #print axioms salsa20_piecewise
 #print axioms salsa20_length
+#print axioms salsa20_ecrypt_known_answer
 #print axioms hashlittle2_eq_spec
 #print axioms hashlittle_eq_spec
 #print axioms jenkins96_parts
+#print axioms or_top_bit
+#print axioms checksum_a_def
+#print axioms hash_guard_def
 #print axioms arc4_key_len_guard
 #print axioms arc4_decrypt_encrypt
 #print axioms arc4_piecewise
